@@ -129,6 +129,10 @@ def classify(diags, w, gen_file=None):
             else:
                 if site_sp is None or sp.get("is_primary"):
                     site_sp = sp
+        if clause is None and site_sp is not None:
+            c = _clause_at(w.clauses, site_sp["line_start"], site_sp["line_end"])
+            if c is not None and c["kind"] == "hint":
+                clause = c             # a labelled proof hint (assert / lemma call) inside the function body
         it = None
         if site_sp is not None:
             it = _item_at(w.items, site_sp["line_start"])
